@@ -174,15 +174,21 @@ HalfWindow == MaxN(N(2 * MSS), Div(cwnd, 2))
 \* the property does not say whether a loss indication ends a CUBIC epoch: both admitted
 CubAfterLoss(cb) == cfg.cc = "reno" \/ cb = cub \/ cb = [cub EXCEPT !.ep = Zero]
 DupAck(cw, ss, cb, rx) ==
-  /\ la < ns                           \* a duplicate ACK tells of data beyond a hole: something is outstanding
+  /\ la <= ns                          \* la = ns: a repeat of the latest cumulative ACK while nothing is outstanding
   /\ dup' = dup + 1
   /\ CASE dup + 1 < 3 -> /\ cw = cwnd /\ ss = ssth /\ cb = cub /\ ~rx
        [] dup + 1 = 3 -> /\ Near(ss, HalfWindow) /\ Near(cw, Plus(ss, N(3 * MSS))) /\ CubAfterLoss(cb)
-                         /\ rx                                   \* fast retransmit
+                         /\ rx <=> la < ns                       \* fast retransmit of the missing segment, if any
        [] OTHER       -> /\ Near(cw, Plus(cwnd, N(MSS))) /\ ss = ssth /\ cb = cub
+                         /\ rx => la < ns
   /\ cwnd' = cw /\ ssth' = ss /\ cub' = cb
   /\ IF rx THEN Tx("fast", la) ELSE NoTx
   /\ UNCHANGED <<now, la, ns, buf, srtt, rttvar, rto, cfg>>
+\* The property does not say whether a repeat of the latest ACK counts as a duplicate when nothing is outstanding
+\* (there is no hole it could tell of): counting it (DupAck) and ignoring it (IdleDup) are both admitted.  What it
+\* can never be is a NEW ACK: last_ack does not advance, so neither the window grows nor the estimator moves.
+IdleDup == /\ la = ns
+           /\ UNCHANGED <<now, cwnd, ssth, dup, la, ns, buf, srtt, rttvar, rto, cub, last, ntx, cfg>>
 
 (* -------------------------------------------------------------- Timeout *)
 CubReset(cb) ==
